@@ -2,6 +2,7 @@ package main
 
 import (
 	"fmt"
+	"sort"
 	"strings"
 	"unicode"
 )
@@ -64,6 +65,116 @@ func (e *SExpr) String() string {
 		return "(" + e.Args[0].String() + " ? " + e.Args[1].String() + " : " + e.Args[2].String() + ")"
 	}
 	return "?"
+}
+
+// closedDefinition: a defines clause "f(args) == E" (possibly under forall) whose right-hand side
+// mentions nothing but the argument expressions and the bound variables is a global definition
+// of the spec function f - the same in every unit, so a caller need not re-establish it. Any
+// other defines clause interprets f relative to the unit's own parameters, and callers of the
+// unit get the obligation to hold the same interpretation. Returns the function name and a
+// canonical right-hand side (arguments replaced by positional placeholders).
+func closedDefinition(e *SExpr) (closed bool, fname, canon string) {
+	bound := map[string]bool{}
+	for e.Kind == "quant" && e.Op == "forall" {
+		for _, v := range e.Vars {
+			bound[v.Name] = true
+		}
+		e = e.Args[0]
+	}
+	if e.Kind != "bin" || (e.Op != "==" && e.Op != "<==>") || e.Args[0].Kind != "call" {
+		return false, "", ""
+	}
+	lhs, rhs := e.Args[0], e.Args[1]
+	fname = lhs.Args[0].String()
+	args := map[string]int{}
+	for i, a := range lhs.Args[1:] {
+		args[a.String()] = i
+	}
+	ok := true
+	var walk func(n *SExpr, b map[string]bool)
+	walk = func(n *SExpr, b map[string]bool) {
+		if n == nil || !ok {
+			return
+		}
+		if _, isArg := args[n.String()]; isArg {
+			return
+		}
+		switch n.Kind {
+		case "ident":
+			if !b[n.Name] && n.Name != "true" && n.Name != "false" && n.Name != "nil" {
+				ok = false
+			}
+		case "int", "real", "str":
+		case "call":
+			for _, a := range n.Args[1:] {
+				walk(a, b)
+			}
+		case "quant":
+			nb := map[string]bool{}
+			for k := range b {
+				nb[k] = true
+			}
+			for _, v := range n.Vars {
+				nb[v.Name] = true
+			}
+			walk(n.Args[0], nb)
+		case "old":
+			ok = false
+		default:
+			for _, a := range n.Args {
+				walk(a, b)
+			}
+		}
+	}
+	walk(rhs, bound)
+	if !ok {
+		return false, fname, ""
+	}
+	canon = rhs.String()
+	var keys []string
+	for k := range args {
+		keys = append(keys, k)
+	}
+	sort.Slice(keys, func(i, j int) bool { return len(keys[i]) > len(keys[j]) })
+	for _, k := range keys {
+		canon = strings.ReplaceAll(canon, k, fmt.Sprintf("$%d", args[k]))
+	}
+	return true, fname, canon
+}
+
+// specMentions: does the expression call one of the named spec functions, directly or through
+// the bodies of the pure functions it uses?
+func (e *Engine) specMentions(x *SExpr, names map[string]bool, pkg string) bool {
+	seen := map[string]bool{}
+	var walk func(n *SExpr) bool
+	walk = func(n *SExpr) bool {
+		if n == nil {
+			return false
+		}
+		if n.Kind == "call" {
+			g := n.Args[0].String()
+			if names[g] {
+				return true
+			}
+			short := g
+			if i := strings.LastIndex(g, "."); i >= 0 {
+				short = g[i+1:]
+			}
+			if !seen[short] {
+				seen[short] = true
+				if pf, ok := e.cs.Pures[short]; ok && pf.Body != nil && walk(pf.Body) {
+					return true
+				}
+			}
+		}
+		for _, a := range n.Args {
+			if walk(a) {
+				return true
+			}
+		}
+		return false
+	}
+	return walk(x)
 }
 
 // ---------------------------------------------------------------------------
@@ -479,12 +590,12 @@ func (p *specParser) primary() *SExpr {
 // Contract files
 
 type Clause struct {
-	Kind string // requires, ensures, invariant, decreases, assert
-	Name string
-	Expr *SExpr
-	Text string
-	Line int
-	File string
+	Kind    string // requires, ensures, invariant, decreases, assert
+	Name    string
+	Expr    *SExpr
+	Text    string
+	Line    int
+	File    string
 	Trusted bool // assumed at call sites, not checked against the body (reported as an assumption)
 }
 
@@ -507,9 +618,18 @@ type FuncContract struct {
 	Pure     bool // result is a function of the arguments (and heaps read); callers get a UF
 	Opts     map[string]string
 	Defines  []*Clause // unit-local definitional axioms for declared-only spec functions
+	Hints    []*Hint   // intermediate assertions (cuts) placed before calls: proved, then assumed
 	File     string
 	Line     int
 	Reads    []string
+}
+
+// Hint: "hint[name] <callee> <expr>" — before every call of <callee> in the body the expression
+// (over the locals) is an obligation, and is assumed afterwards. A cut for the solver, not an
+// assumption: nothing is taken on trust.
+type Hint struct {
+	Callee string
+	C      *Clause
 }
 
 type PureFunc struct {
@@ -518,6 +638,7 @@ type PureFunc struct {
 	Ret    string
 	Body   *SExpr // nil => uninterpreted
 	Pkg    string
+	Opaque bool // encoded as a function of its arguments and the heaps it reads, with a definitional axiom (not expanded in place)
 }
 
 type Lemma struct {
@@ -538,10 +659,10 @@ type GhostDecl struct {
 }
 
 type ContractSet struct {
-	Ghosts map[string]*GhostDecl
-	Funcs  map[string]*FuncContract // key: pkgpath + "::" + Key
-	Pures  map[string]*PureFunc     // key: name (global namespace; pkg recorded)
-	Lemmas []*Lemma
+	Ghosts  map[string]*GhostDecl
+	Funcs   map[string]*FuncContract // key: pkgpath + "::" + Key
+	Pures   map[string]*PureFunc     // key: name (global namespace; pkg recorded)
+	Lemmas  []*Lemma
 	TypeInv map[string]*SExpr
 	Assumes int
 }
@@ -631,6 +752,20 @@ func (cs *ContractSet) ParseContractText(pkgPath, file, text string) error {
 				cur.Ensures = append(cur.Ensures, c)
 			}
 			pending = c
+		case "hint":
+			if cur == nil {
+				return fmt.Errorf("%s:%d: hint outside func", file, ln+1)
+			}
+			callee, ex := splitWord(rest)
+			e, err := ParseSpecExpr(ex)
+			if err != nil {
+				return fmt.Errorf("%s:%d: %v", file, ln+1, err)
+			}
+			hn := ""
+			if i := strings.Index(word, "["); i >= 0 && strings.HasSuffix(word, "]") {
+				hn = word[i+1 : len(word)-1]
+			}
+			cur.Hints = append(cur.Hints, &Hint{Callee: callee, C: &Clause{Kind: "hint", Name: hn, Expr: e, Text: ex, Line: ln + 1, File: file}})
 		case "defines":
 			if cur == nil {
 				return fmt.Errorf("%s:%d: defines outside func", file, ln+1)
@@ -696,6 +831,19 @@ func (cs *ContractSet) ParseContractText(pkgPath, file, text string) error {
 				return fmt.Errorf("%s:%d: %v", file, ln+1, err)
 			}
 			pf.Pkg = pkgPath
+			cs.Pures[pf.Name] = pf
+			cur = nil
+			curLoop = nil
+		case "opaque":
+			pf, err := parsePureDecl(rest)
+			if err != nil {
+				return fmt.Errorf("%s:%d: %v", file, ln+1, err)
+			}
+			if pf.Body == nil {
+				return fmt.Errorf("%s:%d: opaque function needs a body", file, ln+1)
+			}
+			pf.Pkg = pkgPath
+			pf.Opaque = true
 			cs.Pures[pf.Name] = pf
 			cur = nil
 			curLoop = nil
